@@ -1,7 +1,7 @@
 (* Exec2.v — executable instances of Ops.v / Spec2.v on cells = list Q and the second half of
    the operation interpreter run by the correspondence check. *)
 From Coq Require Import QArith Qround.
-From HS Require Import Prelude Cov Map Spec Ops Spec2 Exec Packed Moc.
+From HS Require Import Prelude Cov Map Spec Ops Spec2 Exec Packed Moc Sharing.
 Open Scope Z_scope.
 
 (* ---------- element arithmetic on Q ---------- *)
@@ -365,6 +365,10 @@ Definition packed_monitor (op : list (list Z)) : result :=
     let d := extract_fml (view_of (grp op 1)) in
     [ok1; [f_lo d; f_hi d; m_lo d; m_hi d; l_lo d; l_hi d]]
   else if code =? 42 then [ok1; [lut_entry (gz op 1 0)]]
+  else if code =? 45 then
+    (* [45];[producer code] -> what the producer's result shares with its first argument *)
+    let s := prod_shares (gz op 1 0) in
+    [ok1; [Z.b2z (s_cov s); Z.b2z (s_sp s); Z.b2z (s_meta s)]]
   else if code =? 43 then
     let o := match gz op 2 0 with 0 => BSet | 1 => BAnd | 2 => BOr | 3 => BXor | _ => BInv end in
     let other := grp op 4 in
